@@ -16,9 +16,10 @@ func init() {
 			"(R2) Cancel sets canceled and cancels the context under the task lock, canceled is never reset, isActive is false for cancelled tasks (truth table); " +
 			"(R3) queue discipline table: Queue/QueuePrioritized/StartASAP insert into the right list at the right end, only if not yet enqueued, under queuesLock and only for active tasks; nobody else inserts; the handler pops the prioritized list first and waits for the execution slot before every pop; list-element fields are only touched with the task lock held; " +
 			"(R4) one queueWg.Add(1) before the launch and exactly one Done() in the watcher goroutine after ctx-done/execution-wait; " +
-			"(R5) the schedule handler runs/promotes tasks only when the timer derived from the schedule's front element fired, addToSchedule inserts before the first later element and always wakes the handler after changing the schedule. " +
+			"(R5) the schedule handler runs/promotes tasks only when the timer derived from the schedule's front element fired, addToSchedule inserts before the first later element and always wakes the handler after changing the schedule; " +
+			"(R6) removeFromQueues leaves no stale list element: for each of the three element fields every exit has either found the field nil or removed the element from the list it was inserted into (table derived from the insert sites) and cleared the field. " +
 			"NOT decided: liveness ('every queued task runs'), timing, order under real interleavings; Task.ctx is deliberately outside the lock rule (the source documents the benign race).",
-		Rules: []ruleFn{c07R1, c07R2, c07R3, c07R4, c07R5},
+		Rules: []ruleFn{c07R1, c07R2, c07R3, c07R4, c07R5, c07R6},
 	})
 }
 
@@ -511,4 +512,83 @@ func originHasField(c *Ctx, v ssa.Value, owner, field, base string) bool {
 		}
 	}
 	return false
+}
+
+// c07R6: a task taken off the lists is off every list, and its element fields say so.
+func c07R6(c *Ctx, r *Report) {
+	const rule = "C07-R6"
+	r.SetFloor(rule, 9)
+	fn := c.Func("modules.(*Task).removeFromQueues")
+	if fn == nil {
+		r.Undecided(rule, "modules.(*Task).removeFromQueues", "anchor function missing")
+		return
+	}
+	const listPkg = "container/list.List."
+	for _, field := range []string{"queueElement", "prioritizedQueueElement", "scheduleListElement"} {
+		// which list does this field's element live in? (from the insert sites)
+		lists := map[string]bool{}
+		for _, s := range c.StoresTo("modules.Task", field) {
+			st := s.Instr.(*ssa.Store)
+			if isNilConst(st.Val) {
+				continue
+			}
+			for _, l := range c.Leaves(st.Val) {
+				call, ok := l.(*ssa.Call)
+				if !ok || !strings.HasPrefix(calleeName(&call.Call), listPkg) {
+					lists["?"+leafDesc(l)] = true
+					continue
+				}
+				lists[vpath(call.Call.Args[0])] = true
+			}
+		}
+		cons := "modules.(*Task).removeFromQueues / " + field
+		if len(lists) != 1 {
+			r.Undecided(rule, cons, fmt.Sprintf("cannot derive the list of field %s from its insert sites: %v", field, lists))
+			continue
+		}
+		var list string
+		for l := range lists {
+			list = l
+		}
+		isClear := func(in ssa.Instruction) bool {
+			st, ok := in.(*ssa.Store)
+			if !ok || !isNilConst(st.Val) {
+				return false
+			}
+			fr, ok := fieldOfAddr(st.Addr)
+			return ok && fr.Owner == "modules.Task" && fr.Name == field
+		}
+		isRemove := func(in ssa.Instruction) bool {
+			ci, ok := in.(*ssa.Call)
+			if !ok || calleeName(&ci.Call) != listPkg+"Remove" {
+				return false
+			}
+			return vpath(ci.Call.Args[0]) == list && fieldLoadOf(ci.Call.Args[1], "modules.Task", field)
+		}
+		isNil := fieldLoadGuard("t."+field+" == nil", "modules.Task", field, false)
+		path := ReachFromAvoiding(fn, nil, isExit, []Guard{isNil}, isClear)
+		r.Check(path == nil, rule, cons+" / cleared on every exit", "every exit has found the field nil or cleared it",
+			"an exit is reachable on which t."+field+" was neither found nil nor cleared: the task keeps a stale element and later submissions to that list are silently ignored", c.pathString(path)...)
+		n := 0
+		eachInstr(fn, func(in ssa.Instruction) {
+			if !isClear(in) {
+				return
+			}
+			n++
+			r.Check(MustPrecede(fn, isRemove, in), rule, cons+" / removed from "+list+" before the field is cleared",
+				"the element is removed from the list it was inserted into before the field is cleared", "the field is cleared without removing the element from "+list+": the task stays queued but looks unqueued", c.Pos(in.Pos()))
+		})
+		eachInstr(fn, func(in ssa.Instruction) {
+			if isRemove(in) {
+				lock := "global:modules.queuesLock"
+				if field == "scheduleListElement" {
+					lock = "global:modules.scheduleLock"
+				}
+				r.Check(LocksHeldAt(fn)[in][lock], rule, cons+" / removal under "+lock, "list removal under the list's lock", "list removal without "+lock, c.Pos(in.Pos()))
+			}
+		})
+		if n == 0 {
+			r.Bad(rule, cons+" / cleared", "the field is never cleared in removeFromQueues")
+		}
+	}
 }
